@@ -1,5 +1,5 @@
 (* C01 - every packet written is well-formed MQTT 5 and carries the caller's options. *)
-From Poster Require Import Model.Tx Proofs.VarintP Proofs.CodecP.
+From Poster Require Import Model.Tx Model.Rx Spec.MqttTx Proofs.VarintP Proofs.CodecP Proofs.RxSpecP Proofs.TxSpecP.
 
 (* a request is refused (Err, nothing encoded, nothing written) exactly when a mandatory part is
    missing: no topic; no topic filter; authentication data without a method; extended
@@ -83,3 +83,112 @@ Proof.
   intros f Hq Hr. unfold sub_options. destruct (sf_nl f), (sf_rap f); cbn [b2n]; lia.
 Qed.
 Print Assumptions C01_subscription_options.
+
+(* ---- each packet IS the packet the standard prescribes for the caller's options ---------------------
+   Spec/MqttTx.v and Spec/Mqtt.v give, from the standard, the bytes of each client packet as a function of
+   its abstract content.  Whenever an encoder of the code succeeds, what it writes equals the standard's
+   packet for exactly the options the caller supplied (abs_* map the option records field by field; the
+   *_props_view theorems below say what the property lists contain).  No well-formedness hypothesis
+   is needed beyond the field sizes a two-byte length can express. *)
+Theorem C01_connect : forall o b, will_consistent o -> connect_sizes_ok o -> enc_connect o = Ok b ->
+  b = spec_connect (abs_connect o).
+Proof. exact enc_connect_spec. Qed.
+Print Assumptions C01_connect.
+(* connect flags: bit 7 user name, 6 password, 5 will retain, 4-3 will QoS, 2 will flag, 1 clean start, 0 zero *)
+Theorem C01_connect_flags : forall o, will_consistent o ->
+  connect_flags o mod 256 = spec_connect_flags (abs_connect o).
+Proof. exact connect_flags_spec. Qed.
+Print Assumptions C01_connect_flags.
+
+Theorem C01_publish : forall o pid b t, po_topic o = Some t -> po_qos o <= 2 -> lenN t < 65536 -> pid < 65536 ->
+  enc_publish o pid = Ok b ->
+  b = spec_publish false (po_qos o) (po_retain o) t pid (publish_props o)
+        (match po_payload o with Some p => p | None => [] end).
+Proof. exact enc_publish_spec. Qed.
+Print Assumptions C01_publish.
+(* ... and decoding it (with the decoder validated against the standard in C02) yields exactly the
+   caller's values: DUP = 0, the requested QoS / retain / topic / payload, the assigned identifier *)
+Theorem C01_publish_roundtrip : forall o pid b t, po_topic o = Some t -> po_qos o <= 2 -> str_ok t ->
+  (po_qos o <> 0 -> 1 <= pid < 65536) -> pid < 65536 -> wf_props publish_ids (publish_props o) ->
+  enc_publish o pid = Ok b ->
+  dec_packet b = Ok (mkrx KPublish false false (po_retain o) (po_qos o) (if po_qos o =? 0 then 0 else pid) 0
+                          (publish_props o) t (match po_payload o with Some p => p | None => [] end) []).
+Proof.
+  intros o pid b t Ht Hq Hs Hp Hp2 Hw H.
+  destruct (enc_publish_spec_len o pid b t Ht Hq (proj1 Hs) Hp2 H) as [-> Hl].
+  apply dec_publish_packet; assumption || exact Hl.
+Qed.
+Print Assumptions C01_publish_roundtrip.
+
+Theorem C01_subscribe : forall o pid subid b, so_filters o <> [] -> Forall filter_ok (so_filters o) -> pid < 65536 ->
+  enc_subscribe o pid subid = Ok b ->
+  exists l, vlen subid = Some l /\
+  b = spec_subscribe pid ((11, VV subid l) :: user_props (so_up o)) (map abs_filter (so_filters o)).
+Proof. exact enc_subscribe_spec. Qed.
+Print Assumptions C01_subscribe.
+Theorem C01_unsubscribe : forall o pid b, uo_filters o <> [] ->
+  Forall (fun t : bytes => lenN t < 65536) (uo_filters o) -> pid < 65536 ->
+  enc_unsubscribe o pid = Ok b -> b = spec_unsubscribe pid (user_props (uo_up o)) (uo_filters o).
+Proof. exact enc_unsubscribe_spec. Qed.
+Print Assumptions C01_unsubscribe.
+Theorem C01_disconnect : forall o b, do_reason o < 256 -> enc_disconnect o = Ok b ->
+  b = spec_disconnect_tx (do_reason o) (disconnect_props o).
+Proof. exact enc_disconnect_spec. Qed.
+Print Assumptions C01_disconnect.
+Theorem C01_auth : forall o b, ao_reason o < 256 -> enc_auth o = Ok b ->
+  b = spec_auth_tx (ao_reason o) (auth_props o) (auth_shortened o).
+Proof. exact enc_auth_spec. Qed.
+Print Assumptions C01_auth.
+Theorem C01_fixed_packets_spec : forall pid, pid < 65536 ->
+  enc_pingreq = spec_pingreq /\ enc_pubrel pid = spec_ack 98 pid 0 [] AckShort2 /\
+  enc_puback pid = spec_ack 64 pid 0 [] AckShort2 /\ enc_pubrec pid = spec_ack 80 pid 0 [] AckShort2 /\
+  enc_pubcomp pid = spec_ack 112 pid 0 [] AckShort2.
+Proof. exact fixed_packets_spec. Qed.
+Print Assumptions C01_fixed_packets_spec.
+
+(* ---- the property sections carry exactly the caller's optional values - each under the identifier the
+   standard assigns, user properties in the caller's order - and nothing else --------------------------- *)
+Theorem C01_connect_props : forall o, let ps := connect_props o in
+  pfirst 17 ps = option_map V32 (co_sei o) /\ pfirst 33 ps = option_map V16 (co_rm o) /\
+  pfirst 39 ps = option_map V32 (co_mps o) /\ pfirst 34 ps = option_map V16 (co_tam o) /\
+  pfirst 25 ps = option_map VB (co_rri o) /\ pfirst 23 ps = option_map VB (co_rpi o) /\
+  pfirst 21 ps = option_map VStr (co_am o) /\ pfirst 22 ps = option_map VBin (co_ad o) /\
+  users ps = co_up o /\ (forall p, In p ps -> In (fst p) connect_tx_ids).
+Proof. exact connect_props_view. Qed.
+Print Assumptions C01_connect_props.
+Theorem C01_will_props : forall o, let ps := will_props o in
+  pfirst 24 ps = option_map V32 (co_wdi o) /\ pfirst 1 ps = option_map VB (co_wpfi o) /\
+  pfirst 2 ps = option_map V32 (co_wmei o) /\ pfirst 3 ps = option_map VStr (co_wct o) /\
+  pfirst 8 ps = option_map VStr (co_wrt o) /\ pfirst 9 ps = option_map VBin (co_wcd o) /\
+  users ps = co_wup o /\ (forall p, In p ps -> In (fst p) will_ids).
+Proof. exact will_props_view. Qed.
+Print Assumptions C01_will_props.
+Theorem C01_publish_props : forall o, let ps := publish_props o in
+  pfirst 1 ps = option_map VB (po_pfi o) /\ pfirst 35 ps = option_map V16 (po_ta o) /\
+  pfirst 2 ps = option_map V32 (po_mei o) /\ pfirst 9 ps = option_map VBin (po_cd o) /\
+  pfirst 8 ps = option_map VStr (po_rt o) /\ pfirst 3 ps = option_map VStr (po_ct o) /\
+  users ps = po_up o /\ (forall p, In p ps -> In (fst p) publish_ids).
+Proof. exact publish_props_view. Qed.
+Print Assumptions C01_publish_props.
+Theorem C01_disconnect_props : forall o, let ps := disconnect_props o in
+  pfirst 17 ps = option_map V32 (do_sei o) /\ pfirst 31 ps = option_map VStr (do_rs o) /\
+  users ps = do_up o /\ (forall p, In p ps -> In (fst p) [17; 31; 38]).
+Proof. exact disconnect_props_view. Qed.
+Print Assumptions C01_disconnect_props.
+Theorem C01_auth_props : forall o, let ps := auth_props o in
+  pfirst 21 ps = option_map VStr (ao_am o) /\ pfirst 22 ps = option_map VBin (ao_ad o) /\
+  users ps = ao_up o /\ (forall p, In p ps -> In (fst p) auth_ids).
+Proof. exact auth_props_view. Qed.
+Print Assumptions C01_auth_props.
+
+Example C01_nonvacuous :
+  let o := Build_publish_opts 1 true (Some [97; 47; 98]) (Some [1; 2; 3]) (Some true) None (Some 60) (Some [9]) None
+             (Some [116]) [([107], [118])] in
+  enc_publish o 7 = Ok (spec_publish false 1 true [97; 47; 98] 7 (publish_props o) [1; 2; 3]) /\
+  wf_props publish_ids (publish_props o).
+Proof.
+  split; [vm_compute; reflexivity|]. split; [|split].
+  - repeat (apply Forall_cons; [unfold swf_prop, wf_pval, str_ok; cbn; repeat split; try reflexivity; try lia|]). apply Forall_nil.
+  - intros p Hp. cbn in Hp. repeat (destruct Hp as [<-|Hp]; [cbn; tauto|]). destruct Hp.
+  - vm_compute. discriminate.
+Qed.
